@@ -44,6 +44,7 @@ type ClientReq struct {
 	WellFormed bool
 	ResRID     string // rid of a resource response
 	ResRootErr bool   // the root of the resource response is an error entry
+	ResDenied  bool   // ... because access to it was denied
 }
 
 type FrameError struct {
@@ -93,6 +94,7 @@ type RefClient struct {
 	curRID              string     // resource the frame being processed is about
 	Handovers           []Handover
 	DropLog             []DropRec
+	AmbigDirect         map[string]bool // rids whose direct count the frames do not determine
 	// Handovers: rid -> list of T at which the rid was (re)handed
 	Dropped map[string]int
 	// UnsubEvents: rid -> count of unsubscribe events
@@ -114,6 +116,7 @@ type Handover struct {
 	RID   string
 	Req   *ClientReq // response that carried it (nil: event)
 	Fresh bool       // the client did not hold it before
+	IsErr bool       // handed as an error placeholder
 }
 
 type DirectRec struct {
@@ -126,7 +129,7 @@ type DirectRec struct {
 
 func newRefClient(idx int) *RefClient {
 	return &RefClient{Idx: idx, Ver: verLegacy, Held: map[string]*CRes{}, Direct: map[string]int{},
-		Reqs: map[uint64]*ClientReq{}, Dropped: map[string]int{}, UnsubEvents: map[string]int{}}
+		AmbigDirect: map[string]bool{}, Reqs: map[uint64]*ClientReq{}, Dropped: map[string]int{}, UnsubEvents: map[string]int{}}
 }
 
 func (c *RefClient) viol(prop, class string, t int, format string, a ...interface{}) {
@@ -258,7 +261,7 @@ func (c *RefClient) addResources(set map[string]interface{}, t int) {
 		}
 		for rid, data := range rs {
 			_, heldBefore := c.Held[rid]
-			c.Handovers = append(c.Handovers, Handover{T: t, RID: rid, Req: c.LastResp, Fresh: !heldBefore})
+			c.Handovers = append(c.Handovers, Handover{T: t, RID: rid, Req: c.LastResp, Fresh: !heldBefore, IsErr: typ == 'e'})
 			if old, held := c.Held[rid]; held {
 				c.RedundantResend++
 				nr := makeRes(typ, data)
